@@ -476,10 +476,20 @@ def h_switch(sp, q=2, plans=PLAIN_PLANS):
     kind, p, emit = draw_plan(sp, 'w2.release', 2 * t2.total, [tuple(x) for x in plans])
     t2.enable_cycle(enable_w2, kind, p, 'SimpleLoop.switch(handle of w2)', emit)
     if t2.fired:
+        # follow-up after an interrupted release: a plain assignment, or the loop entering the same world again
+        # (direct use of loop.switch / a restarted loop) with no disable in between
         def again():
             w2.dispatch_enabled = True
+
+        def switch_again():
+            loop.switch(h2)
         t2.cycle_no = 1
-        t2.enable_cycle(again, NONE, None, 'w2.dispatch_enabled = True')
+        if sp.flag('w2-follow-up-is-switch-again'):
+            if t2.kind == RAISE and t2.pending:
+                sp.cover('switch-again-with-pending-after-raise')
+            t2.enable_cycle(switch_again, NONE, None, 'SimpleLoop.switch(handle of w2) again')
+        else:
+            t2.enable_cycle(again, NONE, None, 'w2.dispatch_enabled = True')
     # and back: w1 still holds its deferred events; on_switch_in must come after them
     ex2 = script_switch(t2, t1, h1)
 
@@ -493,7 +503,12 @@ def h_switch(sp, q=2, plans=PLAIN_PLANS):
     def again1():
         w1.dispatch_enabled = True
     t1.cycle_no = 1
-    t1.enable_cycle(again1, NONE, None, 'w1.dispatch_enabled = True')
+    if t1.fired and sp.flag('w1-follow-up-is-switch-again'):
+        if t1.kind == RAISE and t1.pending:
+            sp.cover('switch-again-with-pending-after-raise')
+        t1.enable_cycle(lambda: loop.switch(h1), NONE, None, 'SimpleLoop.switch(handle of w1) again')
+    else:
+        t1.enable_cycle(again1, NONE, None, 'w1.dispatch_enabled = True')
     w1.dispatch_enabled = False
     t1.enable_cycle(again1, NONE, None, 'w1.dispatch_enabled = True (nothing may be left)')
     sp.check(not t1.log, 'redelivery', 'an enabling assignment with nothing pending delivered %r' % (t1.log,))
@@ -510,7 +525,8 @@ HARNESSES = {
     'switch': dict(fn=h_switch,
                    nontrivial=['raise-fired', 'disable-fired', 'pending-after-fault', 'switch-in-behind-deferred'],
                    required=['raise-fired', 'disable-fired', 'pending-after-fault', 'released',
-                             'switch-in-behind-deferred', 'released-in-later-cycle']),
+                             'switch-in-behind-deferred', 'released-in-later-cycle',
+                             'switch-again-with-pending-after-raise']),
 }
 
 NESTED_Q = PLAIN_PLANS + ((DISABLE, 'a'), (DISABLE, 'b'))
